@@ -67,6 +67,18 @@ def shape_space_under(feats, derive_feature, wid):
         used = set(re.findall(r"derive_more::(\w+)", src.split("]")[0]))
         if used and all(derive_feature.get(d) in enabled for d in used):
             items.append((name, src))
+    if "error" in enabled:
+        # Error alone (the shape space derives Debug / Display with derive_more, so it needs those features too): every flavour of
+        # source the facade's `AsDynError` helper covers, with hand-written Debug / Display
+        for k, obj in enumerate(["dyn ::core::error::Error", "dyn ::core::error::Error + Send", "dyn ::core::error::Error + Send + Sync",
+                                 "dyn ::core::error::Error + Send + Sync + ::core::panic::UnwindSafe"]):
+            for j, (decl, use) in enumerate([("pub struct X { source: Box<OBJ> }", "X { source: b }"), ("pub struct X(Box<OBJ>);", "X(b)"),
+                                             ("pub enum X { A { source: Box<OBJ> }, B(#[error(source)] Box<OBJ>, u8), C }", "X::B(b, 1)"),
+                                             ("pub struct X { #[error(source)] inner: &'static (OBJ + 'static) }", None)]):
+                body = decl.replace("OBJ", obj + (" + 'static" if "Box" in decl else ""))
+                items.append((f"error-source-object/{k}/{j}",
+                              f"#[derive(Debug, derive_more::Error)] {body} impl ::core::fmt::Display for X {{ fn fmt(&self, f: &mut ::core::fmt::Formatter<'_>) -> ::core::fmt::Result {{ f.write_str(\"x\") }} }}\n"
+                              "pub fn probe(e: &X) -> bool { ::core::error::Error::source(e).is_some() }"))
     if not items:
         return 0, []
     cf = C.CaseFile(GEN.PRELUDE.replace("#![deny(warnings)]", ""))
